@@ -1,3 +1,13 @@
 import GraphSlam.Props.C16.NumJac
 import GraphSlam.Props.Tie.GraphPy
+import GraphSlam.Props.C16.C2Landmark
+import GraphSlam.Props.C16.C2OdometrySE2
+import GraphSlam.Props.C16.FdExact
+import GraphSlam.Props.C16.FdExactLandmark
+import GraphSlam.Props.C16.NumGraph
+import GraphSlam.Props.C16.NumGraphExample
+import GraphSlam.Props.C16.NumGraphPerturb
+import GraphSlam.Props.C16.NumModel
+import GraphSlam.Props.C16.Perturb
+import GraphSlam.Props.C16.Stationary
 /-! C16 — umbrella. -/
